@@ -303,11 +303,16 @@ pub fn gen_big_size(r: &mut Rng) -> u32 {
 
 /// A byte-string value whose encoding is exactly `target` bytes long (head included).
 pub fn bytes_spec_with_encoding_len(target: usize) -> ValSpec {
+    spec_with_encoding_len(Ty::Bytes, target)
+}
+
+/// The same for any string-like type (`Ty::Str` renders and compares much faster than a byte vector).
+pub fn spec_with_encoding_len(ty: Ty, target: usize) -> ValSpec {
     for head in [1usize, 2, 3, 5, 9] {
         if target < head {
             continue;
         }
-        let spec = ValSpec { ty: Ty::Bytes, size: (target - head) as u32, seed: 4242 };
+        let spec = ValSpec { ty, size: (target - head) as u32, seed: 4242 };
         if reference_encoding(&spec).map(|p| p.len()) == Some(target) {
             return spec;
         }
@@ -836,7 +841,35 @@ pub fn reference_encoding(spec: &ValSpec) -> Option<Vec<u8>> {
 
 /// Fingerprint of a decoded value: its `Debug` rendering (floats/NaN render stably).
 pub fn fingerprint<T: Debug>(v: &T) -> String {
-    format!("{:?}", v)
+    // long renderings are folded into (head, length, hash) so that a 16 MiB frame does not cost a 60 MiB string
+    struct Fold {
+        head: String,
+        len: usize,
+        h: u64,
+    }
+    impl std::fmt::Write for Fold {
+        fn write_str(&mut self, s: &str) -> std::fmt::Result {
+            if self.head.len() < 256 {
+                self.head.push_str(s);
+            }
+            self.len += s.len();
+            for b in s.bytes() {
+                self.h = (self.h ^ b as u64).wrapping_mul(0x100_0000_01b3);
+            }
+            Ok(())
+        }
+    }
+    let mut f = Fold { head: String::new(), len: 0, h: 0xcbf2_9ce4_8422_2325 };
+    let _ = std::fmt::write(&mut f, format_args!("{:?}", v));
+    if f.len <= 256 {
+        f.head
+    } else {
+        let mut cut = 200;
+        while !f.head.is_char_boundary(cut) {
+            cut -= 1;
+        }
+        format!("{}...[{} chars, fnv {:016x}]", &f.head[..cut], f.len, f.h)
+    }
 }
 
 /// What decoding `payload` as family `F` directly (no I/O) yields.
